@@ -152,3 +152,58 @@ def key_type_impls_clean(F, R):
             if bad:
                 R.violation('%s / G2 / table access in key impl' % name, 'G2', 'Hash/Eq/Clone of a table key re-enters the unique table while it is borrowed')
     R.count('G2:key-impls', n)
+
+# ------------------------------------------------------------------------------------------------ E7: query purity (receiver-sensitive)
+def param_cell_writes(F):
+    """fn -> set of parameter locals (1-based) whose RefCell fields the function may write, transitively through calls"""
+    direct = {}; passes = {}
+    for c in F.crates:
+        if c.kind == 'test': continue
+        for name, body in c.mir.items():
+            defs = local_defs(body)
+            w = set(); ps = []
+            for bi, b in enumerate(body['blocks']):
+                if b['cleanup']: continue
+                t = b['term']
+                if t['k'] != 'Call': continue
+                cn = callee(t) or ''
+                if cn.startswith(CELL) and cn[len(CELL):] in WRITE and t['args']:
+                    pl = resolve_place(body, defs, t['args'][0])
+                    if pl is not None and 0 < pl['local'] <= body['arg_count']: w.add(pl['local'])
+                else:
+                    for x in (cn, callee_decl(t)):
+                        if x and x.startswith('rsbdd'):
+                            for j, a in enumerate(t['args']):
+                                pl = resolve_place(body, defs, a) if a.get('k') in ('Copy', 'Move') else None
+                                if pl is not None and 0 < pl['local'] <= body['arg_count'] and all(p == 'Deref' for p in pl['proj']):
+                                    ps.append((x, j + 1, pl['local'], t['loc']))
+                            break
+            direct[name] = w; passes[name] = ps
+    summ = {k: set(v) for k, v in direct.items()}
+    changed = True
+    while changed:
+        changed = False
+        for f, ps in passes.items():
+            for (g, j, k, loc) in ps:
+                if j in summ.get(g, ()) and k not in summ[f]:
+                    summ[f].add(k); changed = True
+    return summ, passes
+
+def rule_E7(F, R):
+    lib = F.lib()
+    summ, passes = param_cell_writes(F)
+    for name, f in sorted(lib.fns.items()):
+        if not name.startswith('rsbdd::set::BDDSet::'): continue
+        ins = f['inputs']
+        if not ins or not (ins[0].get('k') == 'Ref' and ins[0]['to'].get('k') == 'Adt' and canon(ins[0]['to']['def']) == 'rsbdd::set::BDDSet'): continue
+        out = f['output']
+        returns_self = out.get('k') == 'Ref' and out['to'].get('k') == 'Adt' and canon(out['to']['def']) == 'rsbdd::set::BDDSet'
+        R.count('E7:set-methods')
+        if returns_self: continue
+        R.count('E7:query-methods')
+        bad = 1 in summ.get(name, ())
+        R.obligation(not bad, 'E7 ' + name)
+        if bad:
+            via = [(g, loc) for (g, j, k, loc) in passes.get(name, []) if k == 1 and j in summ.get(g, ())]
+            R.violation('%s / E7 / writes receiver' % name, 'E7', 'the query %s modifies the set it is asked of%s' % (
+                name.split('::')[-1], (' through ' + via[0][0].split('::')[-1]) if via else ''), via[0][1] if via else None)
